@@ -45,18 +45,6 @@ def db : BibData := dbOf [
 end C14Ex
 open C14Ex
 
-instance {V : Type} (d : CIDict V) : Decidable (CIDict.Inv d) := by
-  unfold CIDict.Inv Lock; exact inferInstance
-
-instance (e : Entry) : Decidable (EntryWF e) :=
-  decidable_of_iff (CIDict.Inv e.fields ∧ CIDict.Inv e.persons) ⟨fun h => ⟨h.1, h.2⟩, fun h => ⟨h.fields, h.persons⟩⟩
-
-instance (d : BibData) : Decidable (DbWF d) :=
-  decidable_of_iff (CIDict.Inv d.entries ∧ (∀ t ∈ CIDict.abs d.entries, t.2.2.key = t.2.1) ∧
-      ∀ t ∈ CIDict.abs d.entries, CIDict.Inv t.2.2.fields ∧ CIDict.Inv t.2.2.persons)
-    ⟨fun h => ⟨h.1, h.2.1, fun t ht => ⟨(h.2.2 t ht).1, (h.2.2 t ht).2⟩⟩,
-     fun h => ⟨h.inv, h.keyEq, fun t ht => ⟨(h.entries t ht).fields, (h.entries t ht).persons⟩⟩⟩
-
 /-- A field the entry defines itself always wins — whatever the database, whatever has been
 followed before, whatever the parents say. -/
 theorem C14_own_field_wins (bibData : Option BibData) (visited : List Str) (e : Entry) (name : Str) (v : Str)
